@@ -42,7 +42,7 @@ MANIFEST = {
 
 def plan(tier):
     t = 400 if tier == "quick" else 900
-    wparts = ["0:0,1:0", "0:1,1:0"] + [f"0:{d},1:{n},2:{k}" for d in range(2) for n in (1, 2) for k in range(6)]
+    wparts = ["0:0,1:0", "0:1,1:0"] + [f"0:{d},1:{n},2:{k}" for d in range(2) for n in (1, 2) for k in range(7)]
     return [
         K("k_path_match", "kjobs.c11", "path_matching", "path/class matching vs segment suffix (shared with C11)"),
         CH("unrelated_module", "harness.c18", "unrelated_module", [f"0:{c},1:{n},2:{q}" for c in range(2) for n in range(2) for q in range(3)],
